@@ -20,7 +20,7 @@ REQUIRED_THEOREMS = ["for_calls_iter_once", "for_keeps_iterator_and_asks_next", 
                      "for_loop_spec", "break_leaves_no_state", "loops_independent", "string_iter_spec", "tuple_iter_spec"]
 # the state the models abstract is all the state there is: the fields of the run-time structures, regenerated on every run, are the ones
 # the models were written against (Props/StateInventory)
-THEOREM_MODULES.append("Yarel.Props.StateInventory")
+THEOREM_MODULES.append("Yarel.Props.StateInventory.state_of_sequences_and_iterators")
 REQUIRED_THEOREMS += ['state_of_sequences_and_iterators']
 LEVEL = "proof"
 ASSUMPTIONS = [
